@@ -207,6 +207,9 @@ func RunJob(job *Job) (res *JobResult) {
 			res.EventHashes = append(res.EventHashes, h)
 		}
 	}()
+	if job.Prop == "C14" {
+		startCPUGuard(job, res)
+	}
 	if job.Replay != "" {
 		var f Found
 		b, err := os.ReadFile(job.Replay)
@@ -218,6 +221,7 @@ func RunJob(job *Job) (res *JobResult) {
 			res.Infra = err.Error()
 			return res
 		}
+		guardCase.Store(f.Case)
 		v, _ := p.Eval(f.Case)
 		res.Cases = 1
 		if v != nil {
@@ -244,6 +248,7 @@ func RunJob(job *Job) (res *JobResult) {
 		if len(res.Samples) < 2 || (len(res.Samples) < 6 && res.Subs[c.Sub] == 1) {
 			res.Samples = append(res.Samples, sampleOf(c))
 		}
+		guardCase.Store(c)
 		v, vac := p.Eval(c)
 		if vac {
 			res.Vacuous++
